@@ -2095,6 +2095,11 @@ class BaseInterpreter(Generic[TContext, TEvent]):
                 ]
             return []
 
+        # 🔢 The remembered states were collected from a set of objects, whose
+        #    iteration order follows memory addresses: restore them in
+        #    document order so entry actions run in the same order every time.
+        remembered = self._in_document_order(remembered)
+
         if history_node.history == "deep":
             # 🌊 Deep history restores the full nested configuration; entering
             #    the deepest leaves re-enters their ancestors on the way.
@@ -2109,6 +2114,27 @@ class BaseInterpreter(Generic[TContext, TEvent]):
         #    own `initial` chain then applies below that.
         shallow = [node for node in remembered if node.parent is parent]
         return shallow or remembered
+
+    def _in_document_order(self, nodes: List[StateNode]) -> List[StateNode]:
+        """Orders states as they are declared in the machine definition.
+
+        Args:
+            nodes (List[StateNode]): The states to order.
+
+        Returns:
+            List[StateNode]: The same states, in document order.
+        """
+        wanted = {id(node) for node in nodes}
+        ordered: List[StateNode] = []
+
+        def _walk(node: StateNode) -> None:
+            if id(node) in wanted:
+                ordered.append(node)
+            for child in node.states.values():
+                _walk(child)
+
+        _walk(self.machine)
+        return ordered
 
     def _resolve_state_by_target(
         self, target: str, reference: StateNode
